@@ -372,9 +372,11 @@ OAUTH1_HEADERS = ["OAuth garbage", "OAuth ", "OAuth oauth_consumer_key", 'OAuth 
                   "Basic x", "", 'OAuth realm="a", oauth_consumer_key="ca"', 'OAuth oauth_consumer_key="ca", oauth_token="tmp1", oauth_verifier="' + "\x00" + '"']
 
 
-def call_oauth1(w, endpoint, header, query="", body=None, method="POST"):
-    uri = f"https://sp.example/{endpoint}" + (("?" + query) if query else "")
+def call_oauth1(w, endpoint, header, query="", body=None, method="POST", host=None, authority="sp.example"):
+    uri = f"https://{authority}/{endpoint}" + (("?" + query) if query else "")
     h = {} if header is None else {"Authorization": header}
+    if host is not None:
+        h["Host"] = host
     if body is not None:
         h["Content-Type"] = "application/x-www-form-urlencoded"
     if endpoint == "initiate":
@@ -629,6 +631,14 @@ def cases(rng, tier):
                 out.append({"t": "oauth1", "ep": ep, "header": None, "query": "", "body": base, "mut": pname})
         for raw in ("a=%zz", "é=1", "a b=c", "oauth_token=tmp1&oauth_token=tmp1", "=", "&&", "a=b=c"):
             out.append({"t": "oauth1", "ep": ep, "header": None, "query": raw, "body": None, "mut": "rawquery"})
+        # the authority the base string is built from is the client's Host header (else the request URI): hostile values with a base-string signature method
+        for sm in ("HMAC-SHA1", "RSA-SHA1"):
+            base = {"oauth_consumer_key": "ca", "oauth_token": "tmp1", "oauth_signature_method": sm, "oauth_timestamp": "1000000", "oauth_nonce": "nh",
+                    "oauth_signature": "AAAA", "oauth_callback": "oob", "oauth_verifier": "ver3"}
+            for hv in ("a:b:c", "sp.example:80:80", "[::1]", "[::1]:8443", ":", "::", "sp.example:", ":443", "sp.example:é", "é.example", "sp.example:443:", "a b", "", "\"", "%zz:%zz", LONG):
+                out.append({"t": "oauth1", "ep": ep, "header": None, "query": "", "body": base, "mut": "host", "host": hv})
+            for au in ("[::1]", "[::1]:8443", "sp.example:", "sp.example:443", "user:pw@sp.example", "user:pw@sp.example:443"):
+                out.append({"t": "oauth1", "ep": ep, "header": None, "query": "", "body": base, "mut": "authority", "authority": au})
     for kind, tok in jwt_endpoint_tokens():
         out.append({"t": "jwt_endpoint", "ep": kind, "token": tok})
     # JOSE
@@ -742,7 +752,7 @@ def impl(c):
         return _from_reg(o)
     if t == "oauth1":
         w, _ = world1()
-        return call_oauth1(w, c["ep"], c["header"], c.get("query", ""), c.get("body"))
+        return call_oauth1(w, c["ep"], c["header"], c.get("query", ""), c.get("body"), host=c.get("host"), authority=c.get("authority", "sp.example"))
     if t == "jwt_endpoint":
         return call_jwt_endpoint(c["ep"], c["token"])
     if t == "jose":
